@@ -254,12 +254,14 @@ package file
 //@     preserves Event
 
 // truncateJob: everything read before the truncation is ignored for offset commits,
-// the file is read again from the start, every stream offset is reset to 0.
+// the file is read again from the start, every stream offset is reset to 0, and
+// the held-back unterminated tail of the old content is dropped (it must not be
+// glued in front of the first line written after the truncation).
 
 //@ func (*jobProvider).truncateJob
 //@   ghost nseek int = 0
 //@   requires job != nil
-//@   ensures nseek == 1
+//@   ensures nseek == 1 && len(job.tail) == 0
 //@   assert at "job.seek(0, io.SeekStart" job.ignoreEventsLE == job.lastEventSeq
 //@   callee seek(off, whence, hint)
 //@     requires off == 0 && whence == 0
